@@ -17,7 +17,7 @@ theorem reach_inv (n : Nat) (h2 : 2 ≤ n) (h8 : n ≤ 8) (evs : List Ev) : Inv 
 
 theorem n_step (s : St) (e : Ev) : (step s e).1.n = s.n := by
   cases e with
-  | poll => rfl
+  | poll => exact step_poll_n s
   | act i a => exact n_stepAct s i a
 
 theorem n_run (s : St) (evs : List Ev) : (run s evs).n = s.n := by
@@ -82,7 +82,7 @@ theorem C17_unanimity_stable (n : Nat) (h2 : 2 ≤ n) (h8 : n ≤ 8) (evs more :
   | cons e more ih =>
     simp only [run, List.foldl]
     cases e with
-    | poll => exact ih s hu hi hn
+    | poll => exact ih _ (by rw [step_poll_flags]; exact hu) (inv_step hi .poll) (by rw [step_poll_n]; exact hn)
     | act i a =>
       have := stable_stepAct hi (hn ▸ hu) i a
       exact ih _ (by simp only [step]; rw [this, hn]) (inv_stepAct hi i a)
@@ -213,7 +213,7 @@ theorem C17_only_own_vote_sets (n : Nat) (evs : List Ev) (i : Nat) (e : Ev)
     e = .act i .vote ∨ e = .act i .drop := by
   generalize reach n evs = s at *
   cases e with
-  | poll => simp [step, hv] at hv'
+  | poll => rw [votedAt_step_poll, hv] at hv'; exact absurd hv' (by decide)
   | act k a =>
     simp only [step] at hv'
     revert hv'
@@ -259,7 +259,7 @@ theorem C17_drop_counts_as_vote (n : Nat) (h2 : 2 ≤ n) (h8 : n ≤ 8) (evs mor
     apply ih _ _ (inv_step hi' e)
     obtain ⟨v, hv, hpc⟩ := hdead
     cases e with
-    | poll => exact ⟨v, hv, hpc⟩
+    | poll => exact ⟨v, by rw [step_poll_voters]; exact hv, hpc⟩
     | act k a =>
       simp only [step]
       by_cases hk : k = i
@@ -269,6 +269,147 @@ theorem C17_drop_counts_as_vote (n : Nat) (h2 : 2 ≤ n) (h8 : n ≤ 8) (evs mor
         case case2 w hw hpcw => rw [doVote_get]; simp [hk]; exact ⟨v, hv, hpc⟩
         case case12 w hw hpcw hvd => rw [doVote_get]; simp [hk]; exact ⟨v, hv, hpc⟩
         all_goals (try rw [setVoter_get]) <;> (try simp [hk]) <;> exact ⟨v, hv, hpc⟩
+
+/-! ### No lost wake-up -/
+
+theorem or_flag_eq_all {n i f : Nat} (hi : i < n) (hb : ∀ j, f.testBit j = true → j < n)
+    (h : f ||| flagOf i = allMask n) : f = inverseOf n i ∨ f = allMask n := by
+  have hj : ∀ j, (f.testBit j || decide (i = j)) = decide (j < n) := by
+    intro j
+    have := congrArg (fun x => x.testBit j) h
+    simpa [Nat.testBit_or, testBit_allMask, testBit_flagOf] using this
+  by_cases hbit : f.testBit i = true
+  · right
+    apply Nat.eq_of_testBit_eq
+    intro j
+    rw [testBit_allMask]
+    by_cases hij : i = j
+    · subst hij; simp [hbit, hi]
+    · have := hj j; simpa [hij] using this
+  · left
+    apply Nat.eq_of_testBit_eq
+    intro j
+    simp only [inverseOf, Nat.testBit_xor, testBit_allMask, testBit_flagOf]
+    by_cases hij : i = j
+    · subst hij; simp [hbit, hi]
+    · have := hj j; simpa [hij] using this
+
+theorem doVote_parked_wakes (s : St) (i : Nat) (v : Voter) (pc : PC) (h : s.flags = inverseOf s.n i) :
+    (doVote s i v pc).1.parked = false ∧ (doVote s i v pc).1.wakes = s.wakes + (if s.parked then 1 else 0) := by
+  unfold doVote; simp only []; rw [if_pos h]; exact ⟨rfl, rfl⟩
+
+theorem inv_bits_lt {s : St} (h : Inv s) : ∀ j, s.flags.testBit j = true → j < s.n := by
+  intro j hj
+  rw [h.bits j] at hj
+  simp at hj
+  exact hj.1
+
+/-- A voter's step changes `parked` only by taking the waker. -/
+theorem parked_false_of_changed (s : St) (i : Nat) (a : Act) (h : ¬ (stepAct s i a).1.parked = s.parked) :
+    (stepAct s i a).1.parked = false := by
+  revert h
+  fun_cases stepAct s i a
+  case case2 v hv hpc => unfold doVote; simp only []; split <;> simp [setVoter]
+  case case12 v hv hpc hvd => unfold doVote; simp only []; split <;> simp [setVoter]
+  all_goals (intro h; exact absurd rfl h)
+
+/-- A step of a voter that makes every flag set, from a state where not every flag was set, is the vote
+(or drop) whose `fetch_or` saw `inverse`: it takes the registered waker and wakes it. -/
+theorem reach_all_stepAct {s : St} (h : Inv s) (hne : s.flags ≠ allMask s.n) (i : Nat) (a : Act)
+    (hall : (stepAct s i a).1.flags = allMask s.n) :
+    (stepAct s i a).1.parked = false ∧ (stepAct s i a).1.wakes = s.wakes + (if s.parked then 1 else 0) := by
+  revert hall
+  fun_cases stepAct s i a
+  case case2 v hv hpc =>
+    intro hall
+    rw [doVote_flags] at hall
+    have hi : i < s.n := h.len ▸ lt_of_get hv
+    rcases or_flag_eq_all hi (inv_bits_lt h) hall with hinv | hal
+    · exact doVote_parked_wakes s i v _ hinv
+    · exact absurd hal hne
+  case case12 v hv hpc hvd =>
+    intro hall
+    rw [doVote_flags] at hall
+    have hi : i < s.n := h.len ▸ lt_of_get hv
+    rcases or_flag_eq_all hi (inv_bits_lt h) hall with hinv | hal
+    · exact doVote_parked_wakes s i v _ hinv
+    · exact absurd hal hne
+  case case3 v hv hpc hvd h2p hf =>
+    intro hall
+    exfalso
+    have hn2 := h.n2
+    have h0 : (allMask s.n).testBit 0 = true := by rw [testBit_allMask]; simp; omega
+    have hc : (Generated.coordInit).testBit 0 = false := by decide
+    have hall' : Generated.coordInit = allMask s.n := hall
+    rw [← hall', hc] at h0
+    exact absurd h0 (by decide)
+  case case8 v hv hpc =>
+    intro hall
+    exfalso
+    have hi : i < s.n := h.len ▸ lt_of_get hv
+    have h0 := congrArg (fun x => x.testBit i) hall
+    simp [setVoter, Nat.testBit_and, testBit_notU8, testBit_flagOf, testBit_allMask, hi] at h0
+    have := h.n8
+    omega
+  all_goals (intro hall; exact absurd hall hne)
+
+/-- **No lost wake-up (1)**: in every reachable state in which every party has an outstanding vote (or is gone),
+the receiver is not left parked: the waker it registered has been taken and woken. -/
+theorem C17_no_parked_receiver_after_unanimity (n : Nat) (h2 : 2 ≤ n) (h8 : n ≤ 8) (evs : List Ev) :
+    (reach n evs).flags = allMask n → (reach n evs).parked = false := by
+  suffices H : ∀ (evs : List Ev) (s : St), Inv s → (s.flags = allMask s.n → s.parked = false) →
+      ((run s evs).flags = allMask (run s evs).n → (run s evs).parked = false) by
+    have := H evs (init n) (inv_init n h2 h8) (by intro _; rfl)
+    rw [n_run] at this
+    exact this
+  intro evs
+  induction evs with
+  | nil => intro s _ hp; exact hp
+  | cons e evs ih =>
+    intro s hi hp
+    simp only [run, List.foldl]
+    apply ih _ (inv_step hi e)
+    rw [n_step]
+    cases e with
+    | poll =>
+      simp only [step]
+      split
+      · exact hp
+      · rename_i hne; intro hall; exact absurd hall hne
+    | act i a =>
+      simp only [step]
+      intro hall
+      by_cases hf : s.flags = allMask s.n
+      · have hpk := hp hf
+        -- already unanimous: a voter's step can only keep `parked = false`
+        by_cases hch : (stepAct s i a).1.parked = s.parked
+        · rw [hch]; exact hpk
+        · exact parked_false_of_changed s i a hch
+      · exact (reach_all_stepAct hi hf i a hall).1
+
+/-- **No lost wake-up (2)**: if the receiver is parked (its last poll returned `Pending` and it has not been woken
+since) and a step of any party makes the vote unanimous, that very step delivers exactly one wake-up. -/
+theorem C17_parked_receiver_woken_by_unanimity (n : Nat) (h2 : 2 ≤ n) (h8 : n ≤ 8) (evs : List Ev) (e : Ev)
+    (hp : (reach n evs).parked = true) (hall : (step (reach n evs) e).1.flags = allMask n) :
+    (step (reach n evs) e).1.wakes = (reach n evs).wakes + 1 ∧ (step (reach n evs) e).1.parked = false := by
+  have hi := reach_inv n h2 h8 evs
+  have hn := reach_n n evs
+  have hne : (reach n evs).flags ≠ allMask (reach n evs).n := by
+    intro hf
+    rw [hn] at hf
+    have := C17_no_parked_receiver_after_unanimity n h2 h8 evs hf
+    rw [hp] at this; exact absurd this (by decide)
+  generalize reach n evs = s at *
+  cases e with
+  | poll => rw [step_poll_flags, ← hn] at hall; exact absurd hall hne
+  | act i a =>
+    simp only [step] at hall ⊢
+    have := reach_all_stepAct hi hne i a (hn ▸ hall)
+    rw [hp] at this
+    exact ⟨by simpa using this.2, this.1⟩
+
+example : (reach 3 [.act 0 .vote, .poll, .act 1 .vote]).parked = true := by decide
+example : (step (reach 3 [.act 0 .vote, .poll, .act 1 .vote]) (.act 2 .drop)).1.wakes = 1 := by decide
 
 /-! Non-vacuity and the witness of the defect repaired by the `fix:` commit (kept as regression). -/
 
